@@ -194,7 +194,9 @@ def gen_case(g):
                 continue
             h.opnames.append(d["op"])
         elif r < 0.7 and len(snapshots) > 1:
+            maxc = max([ws["counter"]] + [sn["counter"] for sn in snapshots])
             ws = copy.deepcopy(rng.choice(snapshots))
+            ws["counter"] = maxc  # names made up after a revert never repeat earlier ones
             h.opnames.append("revert")
         elif r < 0.78:
             cands = [p for p in sorted(h.disk) if p not in h.docs]
